@@ -42,7 +42,7 @@ class FaultEnumScenario(WorldScenario):
         if w.hashing:
             hashes = w.read_hashes()
             if isinstance(hashes, dict):
-                ok_names = set(pre_hash_names) | {a[0] for a in res.accepted}
+                ok_names = set(pre_hash_names) | {a[0] for a in res.accepted} | {a[0] for a in w.history_accepted}
                 bad = sorted(set(hashes) - ok_names)
                 if bad:
                     w.flag("C09", "hash_without_acceptance", f"spec hash recorded for {bad} whose submission was "
@@ -154,9 +154,35 @@ class FaultEnumScenario(WorldScenario):
     def main_op(self, w, r):
         patterns = self._patterns(w, r) if r.chance(0.3) else []
         op = {"op": "gwf", "argv": ["run"] + patterns, "cwd": "root"}
+        if self.profile.get("p_nested_submit") and r.chance(self.profile["p_nested_submit"]):
+            # a second SUBMITTING command in another terminal, on a disjoint part of the workflow - used only in the
+            # executions in which this run is killed afterwards (gwf has no lock: two commands that both save race)
+            pair = self._disjoint_pair(w, r)
+            if pair:
+                op["argv"] = ["run", pair[0]]
+                op["nested_submit"] = pair[1]
+                return op
         if self.profile.get("p_nested") and r.chance(self.profile["p_nested"]):
             op["nested"] = self._draw_nested(r)
         return op
+
+    @staticmethod
+    def _disjoint_pair(w, r):
+        m = w.model
+        eps = [n for n in m.endpoints() if not any(c in n for c in "*?[")]
+        r_ = list(eps)
+        cands = []
+        for e in r_:
+            ce = m.cone([e])
+            if len(ce) < 2:
+                continue
+            for y in sorted(m.targets):
+                if any(c in y for c in "*?["):
+                    continue
+                cy = m.cone([y])
+                if not (cy & ce) and not (m.downstream(cy) & ce):
+                    cands.append((e, y))
+        return r.pick(cands) if cands else None
 
     def _kill_streak(self, w0, r, pre):
         def emit(op):
@@ -269,6 +295,13 @@ class FaultEnumScenario(WorldScenario):
                            or (k == "sock:send" and "enqueue_task" in d))
         # 2. enumerate the fault points of that run
         faults = self.enumerate_faults(seams)
+        if run_op.get("nested_submit"):
+            sub = [i for i, (k, d, s_) in enumerate(seams, start=1)
+                   if k == "cmd:" + SUBMIT_EXE[self.knobs["backend"]] or (k == "sock:send" and "enqueue_task" in d)]
+            if len(sub) >= 2:
+                for f in list(faults):
+                    if "kill_at" in f and (f["kill_at"][0] > sub[1] or (f["kill_at"][0] == sub[1] and f["kill_at"][1] == "after")):
+                        faults.append(dict(f, with_second_submitter=True))
         self.extra["fault_points"] = len(faults)
         self.extra["evaluations"] = len(faults) + 1
         self.extra["scenarios_with_accepted_jobs"] = 1 if n_accept else 0
@@ -278,7 +311,10 @@ class FaultEnumScenario(WorldScenario):
         for f in faults:
             cls = self.classify(f, seams, self.knobs["backend"])
             classes[cls] = classes.get(cls, 0) + 1
-            op = dict(run_op, fault=f, fault_class=cls)
+            op = dict(run_op, fault={k: v for k, v in f.items() if k != "with_second_submitter"}, fault_class=cls)
+            op.pop("nested_submit", None)
+            if f.get("with_second_submitter"):
+                op["nested"] = [[2, ["run", run_op["nested_submit"]]]]
             tr = Trace(keep=False)
             tr.log("seed", seed=self.seed)
             w, viol = self._play(pre + [op], tr)
